@@ -433,7 +433,7 @@ def _exh_code(ops):
     return "".join(o["op"] + (str(o["g"]) + o["part"][0] if o["op"] in "wd" else "") for o in ops)
 
 
-def fam_exhaustive_par(tier, tag, variants=("plain", "backing", "special", "backing_short"), parn=None, seeds=(1, 2, 3), sweep=0, sample=None, seed=1,
+def fam_exhaustive_par(tier, tag, variants=("plain", "backing", "special", "backing_short"), parn=None, seeds=(1, 2), sweep=0, sample=None, seed=1,
                        probe=False):
     """concurrent small scope (spec/GenOps.tla, EmitPar): every multiset of two
     (thorough: also three) overlapping operations on two guest clusters, after
@@ -450,9 +450,9 @@ def fam_exhaustive_par(tier, tag, variants=("plain", "backing", "special", "back
         hs = _EXHP[pn]
         if sample and len(hs) > sample:
             hs = rng.sample(hs, sample)
-        elif tier == "quick" and pn == 3 and parn is None:
-            # quick tier: all pairs, a seeded sample of the triples
-            hs = rng.sample(hs, 500)
+        elif pn == 3 and parn is None:
+            # all pairs, a seeded sample of the 9 790 triples
+            hs = rng.sample(hs, 500 if tier == "quick" else 3000)
         for v in variants:
             for h in hs:
                 lay = _exh_layout(v)
